@@ -10,7 +10,7 @@ NOTE = "libc string functions are reference models (assumed to be what libc does
 EXPLANATION = LEVEL_TEXT
 TRUSTED = ["libc strlen/strcpy/strcat/strstr/memmove behave as the reference models in stubs/libc_str.c", "vsnprintf(NULL,0,..) returns the length vsprintf writes"]
 
-F = {"assign": ["String_Assign"], "concat": ["String_Concat"], "resize": ["String_Resize", "String_Len"], "clear": ["String_Clear"], "del": ["String_Del"], "new": ["String_New", "String_Assign"],
+F = {"assign_alias": ["String_Assign"], "concat_alias": ["String_Concat"], "assign": ["String_Assign"], "concat": ["String_Concat"], "resize": ["String_Resize", "String_Len"], "clear": ["String_Clear"], "del": ["String_Del"], "new": ["String_New", "String_Assign"],
      "mem_rem": ["String_Mem", "String_Rem", "String_C_Str"], "format_to": ["String_Format_To"]}
 
 def jobs(tier, only=None, prefix="C16"):
@@ -34,6 +34,9 @@ def jobs(tier, only=None, prefix="C16"):
         add("clear", ["LA=%d" % la], "a%d" % la); add("del", ["LA=%d" % la], "a%d" % la)
         for pos in range(0, la + 1):
             add("format_to", ["LA=%d" % la, "POS=%d" % pos], "a%d.pos%d" % (la, pos))
+    for la in range(0, 3):
+        for al in (1, 2):
+            add("assign_alias", ["LA=%d" % la, "ALIAS=%d" % al], "a%d.alias%d" % (la, al)); add("concat_alias", ["LA=%d" % la, "ALIAS=%d" % al], "a%d.alias%d" % (la, al))
     for g in [0, 1, 31, 32, 33, 63, 64, 65, 127, 128, 129]:      # chunk lengths around the usual scratch-buffer sizes
         add("format_to", ["LA=2", "POS=1", "GLEN=%d" % g], "a2.pos1.len%d" % g)
     for lb in range(0, lb_max + 1):
